@@ -5,6 +5,7 @@ import (
 	"fmt"
 	"math/rand"
 	"sync"
+	"sync/atomic"
 	"time"
 
 	"github.com/samber/ro"
@@ -18,13 +19,14 @@ import (
 // through a pass-through operator; slow callbacks; the trace is validated against Contract.tla (no overlap, grammar).
 
 type OpScenario struct {
-	Head  string // multi-source operator (pipe.BuildMulti name) or "subject:<kind>"
-	K     int
-	Tail  string // pass-through operator appended after the head ("" = none)
-	Len   int    // values per producer
-	Ends  []string
-	Slow  int
-	Unsub bool
+	Head   string // multi-source operator (pipe.BuildMulti name) or "subject:<kind>"
+	K      int
+	Tail   string // pass-through operator appended after the head ("" = none)
+	Len    int    // values per producer
+	Ends   []string
+	Slow   int
+	Unsub  bool
+	WaitTd bool // every source's teardown waits until its producer is out of the emission it is in (a clean shutdown), unless it runs on that producer's own goroutine
 }
 
 var opHeads = []string{"Merge", "Merge", "MergeWith", "MergeAll", "CombineLatest2", "CombineLatestWith", "CombineLatestAny", "Zip2", "ZipWith", "Race", "RaceWith",
@@ -51,6 +53,7 @@ func GenOp(r *rand.Rand) OpScenario {
 		sc.Ends = append(sc.Ends, []string{"", "", "C", "C", "E"}[r.Intn(5)])
 	}
 	sc.Unsub = r.Intn(4) == 0
+	sc.WaitTd = !(len(sc.Head) > 8 && sc.Head[:8] == "subject:") && r.Intn(3) == 0
 	return sc
 }
 
@@ -88,6 +91,10 @@ func RunOpPark(lg *rec.Log, sc OpScenario, seed int64, pk *rec.Parker) []rec.Ev 
 	lg.Add(rec.Ev{E: "hdr", S: "subj", B: true, I: sc.K})
 	base := context.WithValue(context.Background(), logKey{}, lg)
 	base = context.WithValue(base, rec.KeySub, true)
+	var inflight [4]int32 // emissions in flight per source
+	var emSeq [4]int64    // emissions started per source
+	var tdRunning int32   // source teardowns in progress (they may run on goroutines of the library)
+	var prodGid [4]uint64 // goroutine of the producer of each source
 	isSubj := len(sc.Head) > 8 && sc.Head[:8] == "subject:"
 	isCtx := len(sc.Head) > 4 && sc.Head[:4] == "ctx:"
 	var cancelSub context.CancelFunc
@@ -111,7 +118,25 @@ func RunOpPark(lg *rec.Log, sc OpScenario, seed int64, pk *rec.Parker) []rec.Ev 
 	} else {
 		srcs := make([]ro.Observable[any], sc.K)
 		for i := range srcs {
+			i := i
 			c := &pipe.Ctl{}
+			c.OnSub = nil
+			c.OnTeardown = func() {
+				atomic.AddInt32(&tdRunning, 1)
+				defer atomic.AddInt32(&tdRunning, -1)
+				if sc.WaitTd && atomic.LoadUint64(&prodGid[i]) != rec.Gid() {
+					// wait for the producer of this source to leave the emission it is in (bounded: a producer that can never leave is what the watchdog reports)
+					k := 0
+					s0 := atomic.LoadInt64(&emSeq[i])
+					for ; k < 40000 && atomic.LoadInt32(&inflight[i]) != 0 && atomic.LoadInt64(&emSeq[i]) == s0; k++ {
+						time.Sleep(50 * time.Microsecond)
+					}
+					if k == 40000 {
+						lg.Add(rec.Ev{E: "hang", S: fmt.Sprintf("the teardown of source %d waited 2s for its producer, which is blocked inside the pipeline", i)})
+					}
+				}
+				lg.Add(rec.Ev{E: "srcTd", I: i})
+			}
 			ctls = append(ctls, c)
 			srcs[i] = c.Observable("ctl-unsafe", nil) // every individual source is sequential: the unsafe constructor is legitimate
 		}
@@ -151,6 +176,11 @@ func RunOpPark(lg *rec.Log, sc OpScenario, seed int64, pk *rec.Parker) []rec.Ev 
 		},
 	)
 	sub := o.SubscribeWithContext(base, obs)
+	for i := range ctls {
+		if ctls[i].Dest(0) != nil {
+			lg.Add(rec.Ev{E: "srcSub", I: i})
+		}
+	}
 	var wg, wgOthers sync.WaitGroup
 	start := make(chan struct{})
 	startOthers := start
@@ -189,6 +219,7 @@ func RunOpPark(lg *rec.Log, sc OpScenario, seed int64, pk *rec.Parker) []rec.Ev 
 				return // this source was never subscribed (e.g. a race already decided)
 			}
 			pctx := rec.WithP(sctx, p)
+			atomic.StoreUint64(&prodGid[p], rec.Gid())
 			<-start
 			n := sc.Len
 			if p > 0 {
@@ -212,6 +243,9 @@ func RunOpPark(lg *rec.Log, sc OpScenario, seed int64, pk *rec.Parker) []rec.Ev 
 							lg.Add(rec.Ev{E: "panic", P: p, O: 0, S: fmt.Sprint(e)})
 						}
 					}()
+					atomic.AddInt64(&emSeq[p], 1)
+					atomic.AddInt32(&inflight[p], 1)
+					defer atomic.AddInt32(&inflight[p], -1)
 					switch k {
 					case "N":
 						dest.NextWithContext(ctx, any(p*1000+ci))
@@ -274,6 +308,9 @@ func RunOpPark(lg *rec.Log, sc OpScenario, seed int64, pk *rec.Parker) []rec.Ev 
 		pk.Release()
 	}
 	wg.Wait()
+	for k := 0; k < 60000 && atomic.LoadInt32(&tdRunning) != 0; k++ { // a teardown still running on a goroutine of the library (e.g. a context watcher)
+		time.Sleep(50 * time.Microsecond)
+	}
 	lg.Add(rec.Ev{E: "quiesce"})
 	lg.Add(rec.Ev{E: "unsubB", O: 0, P: 15})
 	sub.Unsubscribe()
